@@ -1,4 +1,5 @@
 """C01 - Bash target preserves scalar expression and control-flow semantics."""
+import corpus
 import progflow
 from vlib import avoid_tags
 
@@ -20,5 +21,6 @@ def run(ctx):
     n = 150 if ctx.tier == "quick" else 2000
     gen = progflow.generate(ctx, "scalar", n)
     failures += progflow.judge(ctx, gen, "gen")
+    failures += corpus.judge(ctx, "C01")
     progflow.report(ctx, failures)
     return ctx.finish(rule=RULE, assumptions=ASSUME)
